@@ -176,8 +176,8 @@ pub fn count(r: &Rec, c: char) -> usize {
 
 /// canonical observation line: `fdt=<n> <toi>:o<opens>c<completes>e<errors>i<interrupted> ...`
 pub fn observe(sess: &Session, rx: &RxResult) -> String {
-    if let Some(p) = &rx.panic {
-        return format!("PANIC {}", p);
+    if rx.panic.is_some() {
+        return "PANIC".to_string();
     }
     let mut s = format!("fdt={}", rx.fdt_count);
     for o in &sess.objs {
